@@ -1270,18 +1270,15 @@ base_str<CharT>& base_str<CharT>::operator-=(int c)
         return *this;
     }
 
-    if (!m_data->len)
+    if (!m_data->len || c <= 0)
     {
         return *this;
     }
 
-    m_data->len -= c;
-    if (m_data->len < 0)
-    {
-        m_data->len = 0;
-    }
-
+    // unshare before touching the length: it lives in the shared storage
     EnsureDataWritable();
+
+    m_data->len = (size_t)c >= m_data->len ? 0 : m_data->len - (size_t)c;
 
     m_data->data()[m_data->len] = 0;
 
